@@ -139,10 +139,11 @@ func checkC09(r *core.Run) {
 	crashes := make([]string, len(jobs))
 	var wg sync.WaitGroup
 	sem := make(chan struct{}, core.Workers())
-	for i, j := range jobs {
-		wg.Add(1)
-		go func(i int, j job) {
-			defer wg.Done()
+	// runJob runs one child; factor stretches its deadline (a child that missed its deadline is run a second time,
+	// with a five times longer one, before the miss is believed: a loaded machine must not look like a deadlock)
+	var runJob func(i int, j job, factor int)
+	runJob = func(i int, j job, factor int) {
+		{
 			sem <- struct{}{}
 			defer func() { <-sem }()
 			bin, bound := "vsched", plainBound
@@ -166,6 +167,7 @@ func checkC09(r *core.Run) {
 					limit = 60 * time.Second
 				}
 			}
+			limit *= time.Duration(factor)
 			ctx, cancel := context.WithTimeout(context.Background(), limit)
 			defer cancel()
 			cmd := exec.CommandContext(ctx, filepath.Join(dir, bin), args...)
@@ -201,7 +203,27 @@ func checkC09(r *core.Run) {
 				return
 			}
 			reports[i] = &rep
+		}
+	}
+	for i, j := range jobs {
+		wg.Add(1)
+		go func(i int, j job) {
+			defer wg.Done()
+			runJob(i, j, 1)
 		}(i, j)
+	}
+	wg.Wait()
+	slow := 0
+	for i, j := range jobs {
+		if reports[i] == nil && strings.HasPrefix(crashes[i], "no result within") {
+			slow++
+			crashes[i] = ""
+			wg.Add(1)
+			go func(i int, j job) {
+				defer wg.Done()
+				runJob(i, j, 5)
+			}(i, j)
+		}
 	}
 	wg.Wait()
 	os.RemoveAll(logDir)
@@ -280,6 +302,7 @@ func checkC09(r *core.Run) {
 	r.Set("schedules_replayed_twice_identical", replays)
 	r.Set("max_distinct_result_vectors_in_a_scenario", distinct)
 	r.Set("runs", per)
+	r.Set("children_rerun_with_a_longer_deadline", slow)
 	r.Set("bounds", fmt.Sprintf("preemption bound %d (plain build), %d (-race build, race detector as per-schedule monitor), %d free-running -race executions per scenario as cross-check", plainBound, raceBound, free))
 	r.Assume("schedule points: every nameSpace.mu Lock/Unlock (overlay shim), every Write on the output writer, every call entry, thread end; text/template's own RWMutexes are leaf critical sections with no schedule point inside")
 	r.Assume("hand-offs use raw pipe syscalls that add no happens-before edges, so the race detector judges every explored schedule by the program's own synchronisation only; memory-model behaviours weaker than sequential consistency are not explored")
